@@ -97,6 +97,14 @@ def build_u_tokens(list_leaves, all_cases):
     leaves (`--list`) and the case paths (terse listing)."""
     toks = []
     open_path = []
+    # every case belongs to the longest entry it lies under (a function `sort` next to a module `sort` with benchmarks)
+    owner = {}
+    for i, c in enumerate(all_cases):
+        best = None
+        for leaf in set(list_leaves):
+            if (c == leaf or c.startswith(leaf + "::")) and (best is None or len(leaf) > len(best)):
+                best = leaf
+        owner[i] = best
     for leaf in list_leaves:
         comps = leaf.split("::")
         parents = comps[:-1]
@@ -107,7 +115,7 @@ def build_u_tokens(list_leaves, all_cases):
         for j in range(k, len(parents)):
             toks.append(f"{j}/P/{parents[j]}")
         open_path = parents
-        args = [c[len(leaf) + 2:] for c in all_cases if c.startswith(leaf + "::")]
+        args = [c[len(leaf) + 2:] for i, c in enumerate(all_cases) if owner[i] == leaf and c != leaf]
         if leaf in all_cases and not args:
             toks.append(f"{len(parents)}/L/{comps[-1]}")
         else:
